@@ -233,6 +233,10 @@ package ast
 //@   nilable vars other include
 //@   site (*OrderedMap).Set#0 requires arg0 == vars.om                                                       [C08,C10]
 //@   site (*OrderedMap).Set#0 requires include != nil && include.AdvancedImport ==> arg2.Dir == include.Dir  [C08,C09,C10]
+// the stamp is put on the variable of the INCLUDED Taskfile itself, not only on the copy that goes to the parent:
+// Taskfile.Merge hands these same variables to Tasks.Merge right afterwards, as "the included file's own vars" of
+// every task (their sh: commands run in the include's directory)
+//@   site (*OrderedMap).Set#0 requires include != nil && include.AdvancedImport ==> pair.Value.Dir == include.Dir   [C08,C10]
 // ... and is otherwise taken over as it is: value, shell command, reference and the "live" (final, never
 // templated) value - the marker CLI_ARGS travels with
 //@   site (*OrderedMap).Set#0 requires arg1 == pair.Key && arg2.Value == pair.Value.Value && arg2.Live == pair.Value.Live && arg2.Sh == pair.Value.Sh && arg2.Ref == pair.Value.Ref   [C10,C19]
@@ -303,7 +307,7 @@ package ast
 //@   site (*Tasks).Merge#0 requires arg0 == t1.Tasks && arg1 == t2.Tasks && arg2 == include                           [C08,C10]
 // "the variables of the included Taskfile" that every merged task carries are the INCLUDED file's own variables
 // (not the parent's: those are the global level, which the include statement's vars must be able to override)
-//@   site (*Tasks).Merge#0 requires arg3 == t2.Vars                                                                     [C10]
+//@   site (*Tasks).Merge#0 requires arg3 == t2.Vars                                                                     [C10,C09,C08]
 //@   nosite (*Tasks).All            -- the tasks are touched by Tasks.Merge only (which copies), never walked over here  [C06,C08]
 //@   nosite (*Tasks).Values                                                                                             [C06,C08]
 //@   nosite (*Tasks).Get                                                                                                [C06,C08]
